@@ -39,4 +39,9 @@ pub proof fn lemma_abs_dev_rotation(s: Seq<R>, k: int, m: real)
 	lemma_abs_dev_concat(s.subrange(0, k), s.subrange(k, s.len() as int), m);
 	assert(s.subrange(0, k) + s.subrange(k, s.len() as int) =~= s);
 }
-
+pub proof fn lemma_abs_dev_nonneg(s: Seq<R>, m: real)
+	ensures abs_dev_sum(s, m) >= 0real
+	decreases s.len()
+{
+	if s.len() > 0 { lemma_abs_dev_nonneg(s.drop_last(), m); }
+}
